@@ -363,7 +363,23 @@ def t8(rep):
 
     def is_test(n):
         return n.get("mac") == "foamProgUsesFluids" or n.get("imac") == "foamProgUsesFluids"
-    tests = [bid for bid in cfg.blocks if (cfg.cond_edges(bid) or (None,))[0] is not None and is_test(cfg.cond_edges(bid)[0])]
+
+    def cond_sense(bid):
+        """(True/False, true-successor of the fluids test) when the block branches on foamProgUsesFluids, possibly negated"""
+        ce = cfg.cond_edges(bid)
+        if ce is None or ce[0] is None:
+            return None
+        c, neg = strip(ce[0]), False
+        while c is not None and c["k"] == "UnaryOperator" and c.get("op") == "!":
+            neg = not neg
+            c = strip(c["c"][0])
+        if c is not None and c["k"] == "BinaryOperator" and c["op"] in ("!=", "==") and const_value(c["c"][1]) == 0:
+            neg = neg != (c["op"] == "==")
+            c = strip(c["c"][0])
+        if c is None or not is_test(c):
+            return None
+        return ce[2] if neg else ce[1]
+    tests = [bid for bid in cfg.blocks if cond_sense(bid) is not None]
     if not tests:
         raise AnalysisBroken("gccReturn: no branch on foamProgUsesFluids(...)")
     if not cfg.return_blocks():
@@ -377,7 +393,7 @@ def t8(rep):
                       "FOAM Return leaves the function with the caller's fluid bindings still replaced (the interpreter restores them)",
                       detail={"cfg_path": esc[:12]})
     for bid in tests:
-        _, tsucc, _ = cfg.cond_edges(bid)
+        tsucc = cond_sense(bid)
         esc = cfg.path_avoiding(tsucc, None, lambda n: n["k"] == "CallExpr" and n.get("callee") == "gc0PopFluid", src_idx=-1)
         key = "return:fluid-side-pops@%d" % bid if len(tests) > 1 else "return:fluid-side-pops"
         if esc is None:
